@@ -174,25 +174,25 @@ def fresh_function_signal(sig):
     return new
 
 
-def eager_values(sig):
-    """independent eager evaluation of the statement: sum over components of the scaled function on the
-    buffer-extended grid, passed once through the product of the component's filters, cropped"""
+def eager_definition(times, comps):
+    """independent eager evaluation of a DEFINITION (times + list of component dicts): sum over components of
+    the scaled function on the buffer-extended grid, passed once through the product of the component's
+    filters, cropped to `times`"""
     import scipy.fft
-    times = np.asarray(sig.times, dtype=float)
+    times = np.asarray(times, dtype=float)
     n = len(times)
     dt = times[1] - times[0]
     total = np.zeros(n)
-    for fn, t0, (lead, trail), fac, filt in zip(sig._functions, sig._t0s, sig._buffers, sig._factors, sig._filters):
-        # number of buffer samples = ceil(buffer / dt), computed exactly (the generated data are dyadic)
-        nb = int(math.ceil(Fraction(float(lead)) / Fraction(float(dt))))
-        na = int(math.ceil(Fraction(float(trail)) / Fraction(float(dt))))
+    for c in comps:
+        nb = int(math.ceil(Fraction(float(c["lead"])) / Fraction(float(dt))))
+        na = int(math.ceil(Fraction(float(c["trail"])) / Fraction(float(dt))))
         grid = np.concatenate((times[0] - dt * np.arange(nb, 0, -1), times, times[-1] + dt * np.arange(1, na + 1)))
-        vals = np.asarray(fn(grid - t0), dtype=float) * fac
-        if filt:
+        vals = np.asarray(c["fn"](grid - c["t0"]), dtype=float) * c["fac"]
+        if c["filters"]:
             m = len(vals)
             freqs = scipy.fft.fftfreq(2 * m, d=dt)
             resp = np.ones(2 * m, dtype=complex)
-            for f, force_real in filt:
+            for f, force_real in c["filters"]:
                 if force_real:
                     r = np.array(f(np.abs(freqs)), dtype=complex)
                     r.imag[freqs < 0] *= -1
@@ -204,108 +204,274 @@ def eager_values(sig):
     return total
 
 
+def eager_values(sig):
+    return eager_definition(sig.times, [{"fn": fn, "t0": t0, "lead": b[0], "trail": b[1], "fac": fac, "filters": list(filt)}
+                                        for fn, t0, b, fac, filt in zip(sig._functions, sig._t0s, sig._buffers, sig._factors, sig._filters)])
+
+
+def pulse_fn(kind, c, w, a, b):
+    """functions with content outside a short time window, so that leading / trailing buffers matter once
+    a filter moves that content into the window"""
+    if kind == 0:
+        return lambda t: a * np.exp(-((t - c) / w) ** 2) + b * 0.0
+    if kind == 1:
+        return lambda t: np.where(t < c, float(a), float(b)) + 0.25 * t
+    if kind == 2:
+        return lambda t: a * np.abs(t - c) + b
+    return lambda t: a * np.sin(1.5 * (t - c)) / (1.0 + ((t - c) / w) ** 2)
+
+
+def shadow_copy(sh):
+    return {"times": np.array(sh["times"], dtype=float), "vt": sh["vt"],
+            "comps": [dict(c, filters=list(c["filters"])) for c in sh["comps"]]}
+
+
+def fresh_from_definition(sh):
+    """a newly constructed FunctionSignal holding exactly the given definition"""
+    from pyrex.signals import FunctionSignal
+    new = FunctionSignal(np.array(sh["times"], dtype=float), None, sh["vt"])
+    new._functions = [c["fn"] for c in sh["comps"]]
+    new._t0s = [c["t0"] for c in sh["comps"]]
+    new._buffers = [[c["lead"], c["trail"]] for c in sh["comps"]]
+    new._factors = [c["fac"] for c in sh["comps"]]
+    new._filters = [list(c["filters"]) for c in sh["comps"]]
+    return new
+
+
 class FunHistory:
-    """random read/mutate history on one real FunctionSignal (or subclass instance)"""
-    OPS = ["read", "read", "shift", "imul", "idiv", "filter", "filter_real", "set_buffers", "set_buffers_force",
-           "resample", "times", "value_type", "mul_new", "with_times", "add_fun", "add_empty", "copy", "set_t0s",
-           "set_factors", "set_buffers_attr"]
+    """Random read/mutate history over SEVERAL live function-backed signals derived from one another.
+
+    Every live object has a shadow DEFINITION kept by the harness (times, value type, per component:
+    function, offset, factor, leading/trailing buffer, filter list), updated only by the operation applied
+    to THAT object according to the public meaning of the operation -- each object owns its definition,
+    exactly as in the Coq models (components by value).  After every operation EVERY live object's values
+    are compared with (a) a freshly constructed signal holding its own current attributes (exact: staleness),
+    (b) a freshly constructed signal holding its shadow definition and (c) the independent eager evaluation
+    of the shadow definition (cross-object effects, wrong definitions)."""
+    INPLACE = ["shift", "imul", "idiv", "filter", "filter_real", "set_buffers", "set_buffers_force", "resample",
+               "times", "value_type", "set_t0s", "set_factors", "set_buffers_attr"]
+    DERIVE = ["copy", "with_times_sub", "with_times_sub", "with_times_super", "with_times_any", "mul_new", "rmul_new",
+              "div_new", "add_fun", "add_sibling", "add_empty"]
+    MAX_LIVE = 5
 
     def __init__(self, rng):
         from pyrex.signals import FunctionSignal
+
+        class SubFunctionSignal(FunctionSignal):
+            """trivial user subclass"""
+        self.Sub = SubFunctionSignal
         self.rng = rng
-        n = rng.choice([4, 6, 8, 16])
+        self.live = []        # list of [object, shadow]
+        self.log = []
+        self._new_source()
+        # filtered from the start most of the time: buffers are invisible for unfiltered signals
+        if rng.random() < 0.75:
+            self._apply(0, "filter", rng.choice([0.5, 1.0, 2.0, "lowpass"]))
+
+    # ---- construction of a source signal
+    def _new_source(self):
+        from pyrex.signals import FunctionSignal, FullThermalNoise
+        rng = self.rng
+        n = rng.choice([6, 8, 12, 16])
         dt = rng.choice([0.25, 0.5, 1.0])
         start = rng.randint(-8, 8) * 0.5
-        self.sig = FunctionSignal(start + dt * np.arange(n), dyadic_fn(rng.randrange(3), rng.randint(-3, 3), rng.randint(-4, 4)),
-                                  rng.choice([None, "voltage", "field"]))
-        self.log = []
+        times = start + dt * np.arange(n)
+        vt = rng.choice([None, "voltage", "field"])
+        r = rng.random()
+        if r < 0.1:
+            np.random.seed(rng.randrange(2 ** 31))
+            obj = FullThermalNoise(times, (0.25, 1.75), rms_voltage=1.0)
+            fn = obj._functions[0]
+            vt = "voltage"
+        else:
+            c = start + rng.randint(-6, n + 6) * dt * rng.choice([1, 0.5])
+            fn = pulse_fn(rng.randrange(4), c, rng.choice([0.5, 1.0, 2.0]), rng.choice([-2, -1, 1, 2, 3]), rng.randint(-2, 2))
+            obj = (self.Sub if r < 0.3 else FunctionSignal)(times, fn, vt)
+        sh = {"times": np.array(times), "vt": vt,
+              "comps": [{"fn": fn, "t0": 0, "fac": 1, "lead": 0, "trail": 0, "filters": []}]}
+        self._add(obj, sh)
+        return len(self.live) - 1
 
-    def step(self):
+    def _add(self, obj, sh):
+        if len(self.live) >= self.MAX_LIVE:
+            self.live.pop(self.rng.randrange(len(self.live)))
+        self.live.append([obj, sh])
+
+    # ---- one operation on live object i, applied to the implementation AND to that object's shadow only
+    def _apply(self, i, op, arg):
         from pyrex.signals import FunctionSignal, EmptySignal
-        rng, s = self.rng, self.sig
-        op = rng.choice(self.OPS)
-        arg = None
+        s, sh = self.live[i]
         if op == "read":
             _ = s.values
         elif op == "shift":
-            arg = rng.randint(-6, 6) * 0.25
             s.shift(arg)
+            sh["times"] = sh["times"] + arg
+            for c in sh["comps"]:
+                c["t0"] = c["t0"] + arg
+        elif op in ("imul", "idiv"):
+            if op == "imul":
+                s *= arg
+            else:
+                s /= arg
+            self.live[i][0] = s
+            for c in sh["comps"]:
+                c["fac"] = c["fac"] * arg if op == "imul" else c["fac"] / arg
+        elif op in ("filter", "filter_real"):
+            f = lowpass if arg == "lowpass" else delay_filter(arg)
+            s.filter_frequencies(f, force_real=(op == "filter_real"))
+            for c in sh["comps"]:
+                c["filters"].append((f, op == "filter_real"))
+        elif op in ("set_buffers", "set_buffers_force"):
+            s.set_buffers(leading=arg[0], trailing=arg[1], force=(op == "set_buffers_force"))
+            for c in sh["comps"]:
+                if arg[0] is not None:
+                    c["lead"] = arg[0] if op == "set_buffers_force" else max(arg[0], c["lead"])
+                if arg[1] is not None:
+                    c["trail"] = arg[1] if op == "set_buffers_force" else max(arg[1], c["trail"])
+        elif op == "resample":
+            s.resample(arg)
+            if arg != len(sh["times"]):
+                sh["times"] = np.linspace(sh["times"][0], sh["times"][-1], arg)
+        elif op == "times":
+            new = arg[0] + arg[1] * np.arange(arg[2])
+            s.times = new
+            sh["times"] = np.array(new)
+        elif op == "value_type":
+            s.value_type = arg
+            sh["vt"] = arg
+        elif op == "set_t0s":
+            s._t0s = [arg for _ in s._t0s]
+            for c in sh["comps"]:
+                c["t0"] = arg
+        elif op == "set_factors":
+            s._factors = [arg for _ in s._factors]
+            for c in sh["comps"]:
+                c["fac"] = arg
+        elif op == "set_buffers_attr":
+            s._buffers = [[arg, arg] for _ in s._buffers]
+            for c in sh["comps"]:
+                c["lead"] = c["trail"] = arg
+        # ---- operations that build a new signal: the operand keeps its definition
+        elif op == "copy":
+            self._add(s.copy(), shadow_copy(sh))
+        elif op.startswith("with_times"):
+            new = arg
+            nsh = shadow_copy(sh)
+            nsh["times"] = np.array(new)
+            if new[0] >= sh["times"][0] and new[-1] <= sh["times"][-1]:
+                for c in nsh["comps"]:
+                    c["lead"] = max(new[0] - sh["times"][0], c["lead"])
+                    c["trail"] = max(sh["times"][-1] - new[-1], c["trail"])
+            self._add(s.with_times(np.array(new)), nsh)
+        elif op in ("mul_new", "rmul_new", "div_new"):
+            nsh = shadow_copy(sh)
+            for c in nsh["comps"]:
+                c["fac"] = c["fac"] * arg if op != "div_new" else c["fac"] / arg
+            self._add(s * arg if op == "mul_new" else (arg * s if op == "rmul_new" else s / arg), nsh)
+        elif op == "add_fun":
+            fn = pulse_fn(*arg)
+            other = FunctionSignal(np.array(s.times), fn, s.value_type)
+            nsh = shadow_copy(sh)
+            nsh["comps"].append({"fn": fn, "t0": 0, "fac": 1, "lead": 0, "trail": 0, "filters": []})
+            self._add(s + other, nsh)
+        elif op == "add_sibling":
+            o2, sh2 = self.live[arg]
+            nsh = shadow_copy(sh)
+            nsh["comps"] += shadow_copy(sh2)["comps"]
+            und = lambda v: v in (None, "undefined", 0)
+            nsh["vt"] = sh2["vt"] if und(sh["vt"]) else sh["vt"]
+            self._add(s + o2, nsh)
+        elif op == "add_empty":
+            self._add(s + EmptySignal(np.array(s.times)), shadow_copy(sh))
+        else:
+            raise KeyError(op)
+
+    def step(self):
+        rng = self.rng
+        i = rng.randrange(len(self.live))
+        s, sh = self.live[i]
+        r = rng.random()
+        op = "read" if r < 0.12 else (rng.choice(self.DERIVE) if r < 0.45 else rng.choice(self.INPLACE))
+        dt = float(sh["times"][1] - sh["times"][0])
+        n = len(sh["times"])
+        arg = None
+        if op == "shift":
+            arg = rng.randint(-6, 6) * 0.25
         elif op == "imul":
             arg = rng.choice([2.0, -1.0, 0.5, 3.0])
-            s *= arg
-            self.sig = s
         elif op == "idiv":
             arg = rng.choice([2.0, -4.0, 0.5])
-            s /= arg
-            self.sig = s
         elif op in ("filter", "filter_real"):
             arg = rng.choice([0.5, 1.0, 2.0, "lowpass"])
-            s.filter_frequencies(lowpass if arg == "lowpass" else delay_filter(arg), force_real=(op == "filter_real"))
+            if sum(len(c["filters"]) for c in sh["comps"]) > 6:
+                return None
         elif op in ("set_buffers", "set_buffers_force"):
             arg = (rng.choice([None, 0, 0.5, 1.0, 2.0, 3.25]), rng.choice([None, 0, 0.5, 1.5, 4.0]))
-            s.set_buffers(leading=arg[0], trailing=arg[1], force=(op == "set_buffers_force"))
         elif op == "resample":
-            n0 = len(s.times)     # keep dt dyadic: halve the spacing, or double it when the count is odd
-            arg = rng.choice([n0, n0 * 2 - 1, (n0 + 1) // 2 if (n0 % 2 == 1 and n0 >= 5) else n0])
-            s.resample(arg)
+            arg = rng.choice([n, n * 2 - 1 if n <= 16 else n, (n + 1) // 2 if (n % 2 == 1 and n >= 7) else n])
         elif op == "times":
-            dt = rng.choice([0.25, 0.5, 1.0])
-            arg = (rng.randint(-8, 8) * 0.5, dt, rng.choice([4, 5, 8]))
-            s.times = arg[0] + dt * np.arange(arg[2])
+            arg = (rng.randint(-8, 8) * 0.5, rng.choice([0.25, 0.5, 1.0]), rng.choice([6, 7, 8, 12]))
         elif op == "value_type":
             arg = rng.choice(["voltage", "field", "power", None])
-            s.value_type = arg
-        elif op == "mul_new":
-            arg = rng.choice([2.0, -0.5])
-            self.sig = s * arg
-        elif op == "with_times":
-            dt = s.times[1] - s.times[0]
-            k0, k1 = rng.randint(-3, 3), rng.randint(-3, 3)
-            n = len(s.times) + k1 - k0
-            if n < 3:
-                return None
-            arg = (k0, k1)
-            self.sig = s.with_times(s.times[0] + dt * np.arange(k0, k0 + n))
-        elif op == "add_fun":
-            arg = (rng.randrange(3), rng.randint(-2, 2), rng.randint(-2, 2))
-            other = FunctionSignal(np.array(s.times), dyadic_fn(*arg), s.value_type)
-            if rng.random() < 0.5:
-                other.filter_frequencies(delay_filter(0.5))
-            self.sig = s + other
-        elif op == "add_empty":
-            self.sig = s + EmptySignal(np.array(s.times))
-        elif op == "copy":
-            self.sig = s.copy()
         elif op == "set_t0s":
             arg = rng.randint(-4, 4) * 0.5
-            s._t0s = [arg for _ in s._t0s]
         elif op == "set_factors":
             arg = rng.choice([1.0, 2.0, -3.0])
-            s._factors = [arg for _ in s._factors]
         elif op == "set_buffers_attr":
             arg = rng.choice([0, 1.0, 2.5])
-            s._buffers = [[arg, arg] for _ in s._buffers]
-        self.log.append([op, arg if not isinstance(arg, tuple) else list(arg)])
+        elif op == "with_times_sub":
+            if n < 6:
+                return None
+            k0 = rng.randint(0, n - 4)
+            k1 = rng.randint(k0 + 3, n - 1)
+            arg = sh["times"][0] + dt * np.arange(k0, k1 + 1)
+        elif op == "with_times_super":
+            arg = sh["times"][0] + dt * np.arange(-rng.randint(0, 4), n + rng.randint(0, 4))
+        elif op == "with_times_any":
+            arg = sh["times"][0] + dt * (rng.randint(-6, 6) * rng.choice([1, 0.5]) + np.arange(rng.randint(4, n + 3)))
+        elif op in ("mul_new", "rmul_new", "div_new"):
+            arg = rng.choice([2.0, -0.5, 4.0])
+        elif op == "add_fun":
+            arg = (rng.randrange(4), float(sh["times"][0]) + rng.randint(-4, n + 4) * dt, rng.choice([0.5, 1.0]), rng.choice([-1, 1, 2]), rng.randint(-1, 1))
+        elif op == "add_sibling":
+            same = [j for j, (o2, sh2) in enumerate(self.live)
+                    if len(sh2["times"]) == n and np.array_equal(sh2["times"], sh["times"]) and
+                    (sh2["vt"] == sh["vt"] or sh2["vt"] is None or sh["vt"] is None) and len(sh2["comps"]) + len(sh["comps"]) <= 6]
+            if not same:
+                return None
+            arg = rng.choice(same)
+        self._apply(i, op, arg)
+        la = arg.tolist() if isinstance(arg, np.ndarray) else (list(arg) if isinstance(arg, tuple) else arg)
+        self.log.append([op, i, la])
         return op
 
     def check(self):
-        """returns None or a description of the stale / wrong value"""
-        s = self.sig
-        got = np.array(s.values, dtype=float)
-        fresh = np.array(fresh_function_signal(s).values, dtype=float)
-        if got.shape != fresh.shape or not np.array_equal(got, fresh):
-            return "values differ from a freshly constructed FunctionSignal with the same attributes: %s vs %s" % (
-                np.array2string(got[:6], precision=6), np.array2string(fresh[:6], precision=6))
-        eager = eager_values(s)
-        scale = max(1.0, float(np.max(np.abs(eager))) if len(eager) else 1.0)
-        if got.shape != eager.shape or np.max(np.abs(got - eager)) > 1e-9 * scale:
-            return "values differ from the eager evaluation of the definition: %s vs %s" % (
-                np.array2string(got[:6], precision=6), np.array2string(eager[:6], precision=6))
+        """every live object against its own definition; returns None or a description"""
+        for i, (s, sh) in enumerate(self.live):
+            got = np.array(s.values, dtype=float)
+            fresh = np.array(fresh_function_signal(s).values, dtype=float)
+            if got.shape != fresh.shape or not np.array_equal(got, fresh):
+                return "live object %d: values differ from a freshly constructed FunctionSignal with the same attributes (stale cache): %s vs %s" % (
+                    i, np.array2string(got[:6], precision=6), np.array2string(fresh[:6], precision=6))
+            eager = eager_definition(sh["times"], sh["comps"])
+            scale = max(1.0, float(np.max(np.abs(eager))) if len(eager) else 1.0)
+            if got.shape != eager.shape or np.max(np.abs(got - eager)) > 1e-9 * scale:
+                return ("live object %d: values differ from the eager evaluation of its own definition (as last set through "
+                        "operations on that object): %s vs %s; buffers now %s, defined %s" % (
+                            i, np.array2string(got[:6], precision=6), np.array2string(eager[:6], precision=6),
+                            [[float(x) for x in b] for b in s._buffers], [[float(c["lead"]), float(c["trail"])] for c in sh["comps"]]))
+            rebuilt = np.array(fresh_from_definition(sh).values, dtype=float)
+            if got.shape != rebuilt.shape or np.max(np.abs(got - rebuilt)) > 1e-9 * scale:
+                return "live object %d: values differ from a freshly constructed FunctionSignal holding its own definition: %s vs %s" % (
+                    i, np.array2string(got[:6], precision=6), np.array2string(rebuilt[:6], precision=6))
+            if not np.array_equal(np.asarray(s.times, dtype=float), sh["times"]):
+                return "live object %d: times differ from its own definition" % i
         return None
 
 
 # table-level names of the operations above (for the model's one-directional prediction)
-FUN_TABLE_OP = {"shift": ("call", "shift"), "imul": ("call", "__imul__"), "idiv": ("call", "__itruediv__"),
+FUN_TABLE_OP = {"rmul_new": ("call", "__rmul__"), "mul_new": ("call", "__mul__"), "div_new": ("call", "__truediv__"),
+                "copy": ("call", "copy"), "with_times_sub": ("call", "with_times"), "shift": ("call", "shift"), "imul": ("call", "__imul__"), "idiv": ("call", "__itruediv__"),
                 "filter": ("call", "filter_frequencies"), "filter_real": ("call", "filter_frequencies"),
                 "set_buffers": ("call", "set_buffers"), "set_buffers_force": ("call", "set_buffers"),
                 "resample": ("call", "resample"), "times": ("set", "times"), "value_type": ("set", "value_type"),
@@ -318,8 +484,9 @@ def replay_fun(log_ops, seed_state):
     logging.disable(logging.CRITICAL)
     rng = random.Random(seed_state)
     h = FunHistory(rng)
+    h.rng.randint(6, 22)          # run() draws the history length from the same stream
     out = []
-    for _ in range(len(log_ops) + 40):
+    for _ in range(len(log_ops) + 200):
         if len(h.log) >= len(log_ops):
             break
         h.step()
@@ -477,10 +644,15 @@ def run(ctx):
     logging.disable(logging.CRITICAL)      # pyrex warns about discarded imaginary parts of filtered test signals
     ctx.rule = ("(a) random synthetic LazyMutableClass subclasses (random static sets, property read sets, method effect "
                 "paths) under random set/call/read histories vs the Coq stamp model: exact stale pattern; "
-                "(b) random read/mutate histories (<= 25 ops: read, shift, *=, /=, filter_frequencies, set_buffers "
-                "(+force), resample, times / value_type / _t0s / _factors / _buffers assignment, *, with_times, +, copy) "
-                "on real FunctionSignal objects with exactly representable functions: after each op values vs a freshly "
-                "constructed signal (exact) and vs an independent eager evaluation (1e-9 relative); noise subclasses: "
+                "(b) random histories (<= 22 ops) over up to 5 LIVE function-backed signals derived from one another "
+                "(copy, with_times on sub-range / super-range / shifted windows, *, reflected *, /, + of a new or of a "
+                "sibling FunctionSignal, + EmptySignal; sources: FunctionSignal, a subclass, FullThermalNoise; pulse / step / "
+                "oscillating functions with content outside `times`, mostly filtered), in-place ops on any one of them "
+                "(read, shift, *=, /=, filter_frequencies, set_buffers (+force), resample, times / value_type / _t0s / "
+                "_factors / _buffers assignment); the harness keeps a shadow definition per object, changed only by ops on "
+                "that object; after EVERY op EVERY live object's values vs a fresh signal with its current attributes "
+                "(exact), vs a fresh signal holding its shadow definition and vs the independent eager evaluation of the "
+                "shadow definition (1e-9 relative); noise subclasses: "
                 "parameter assignment between reads; ray tracers / paths: endpoint / ice / dz assignment between reads vs "
                 "fresh tracer; non-trivial = distinct op sequences")
     ctx.trusted += ["Coq 8.16.1 kernel, vm_compute (finite table check, stamp model runs)",
@@ -533,14 +705,14 @@ def run(ctx):
     except Exception as e:
         ctx.oblige("corr:core-model", False, str(e)[-1200:])
     # ---- (b) real objects
-    n_hist = ctx.n(400, 6000)
+    n_hist = ctx.n(400, 4000)
     stale = 0
     ops_count = {}
     model_queries = []
     for hn in range(n_hist):
         seed = rng.randrange(2 ** 31)
         h = FunHistory(random.Random(seed))
-        for stepn in range(h.rng.randint(5, 25)):
+        for stepn in range(h.rng.randint(6, 22)):
             try:
                 op = h.step()
             except Exception as e:
@@ -555,7 +727,8 @@ def run(ctx):
                 stale += 1
                 if len(ctx.failures) >= 6:
                     break
-                ctx.fail("fun:" + ",".join(o[0] for o in h.log[-4:]), "FunctionSignal after %s: %s" % (h.log[-6:], bad),
+                ctx.fail("fun:" + ",".join(o[0] for o in h.log[-4:]), "FunctionSignal history %s: %s" % (
+                    [o[:2] for o in h.log[-8:]], bad),
                          {"kind": "fun", "seed": seed, "ops": h.log}, witness=True)
                 break
         ctx.case(key=tuple(o[0] for o in h.log), nontrivial=len(h.log) > 3,
